@@ -67,7 +67,7 @@ func zzPrepWriteState(c *Conn, vers uint16, cipherKind int, closed, closeNotify,
 //verif:stub (*utls.Conn).writeRecordLocked zzStubWriteRecordLocked
 //verif:expect end
 //verif:assume Handshake and the record layer (writeRecordLocked) are stubs behaving identically for both connections
-//verif:doc UConn.Write vs Conn.Write from identical arbitrary states (version 1.0..1.3, cipher none / CBC block mode / AEAD, closed flag, close_notify sent, handshake complete or not, sticky write error, Handshake outcome, a record write that fails or not) and an arbitrary payload of 0..3 symbolic bytes: same (n, err), same sequence of record writes (including the 1/n-1 split for CBC under TLS 1.0), same sticky error afterwards.
+//verif:doc UConn.Write vs Conn.Write from identical arbitrary states (version 1.0..1.3, cipher none / CBC block mode / AEAD, closed flag, close_notify sent, handshake complete or not, sticky write error, Handshake outcome, a record write that fails or not) and an arbitrary payload of 0..3 (thorough 0..7) symbolic bytes: same (n, err), same sequence of record writes (including the 1/n-1 split for CBC under TLS 1.0), same sticky error afterwards.
 func zzC25UConnWriteEqualsConnWrite() {
 	vers := uint16(VersionTLS10 + verifChoice("vers", 4))
 	ck := verifChoice("cipher", 3)
@@ -86,7 +86,7 @@ func zzC25UConnWriteEqualsConnWrite() {
 	zzPrepWriteState(a, vers, ck, closed, cn, complete, outErr)
 	zzPrepWriteState(ub.Conn, vers, ck, closed, cn, complete, outErr)
 	zzConnA, zzConnB, zzWritesA, zzWritesB = a, ub.Conn, nil, nil
-	payload := verifBytes("payload", verifChoice("len", 4))
+	payload := verifBytes("payload", verifChoice("len", zzTierN(4, 8)))
 	n1, e1 := a.Write(append([]byte{}, payload...))
 	n2, e2 := ub.Write(append([]byte{}, payload...))
 	verifAssert(n1 == n2, "same-byte-count")
@@ -246,7 +246,7 @@ func (a *zzModelAEAD) assumeInjective() {
 //verif:harness C25 record_roundtrip_and_tamper unwind=400 paths=100000
 //verif:expect intact tampered
 //verif:assume the AEAD is modelled by uninterpreted keystream and tag functions; the tag is injective on the inputs that occur (instance-level axiom standing in for unforgeability)
-//verif:doc halfConn.encrypt then halfConn.decrypt with the real TLS 1.2 prefix-nonce and TLS 1.3 xor-nonce wrappers around the model AEAD, arbitrary sequence number, nonce material, record type and a payload of 0..3 symbolic bytes: the receiver recovers exactly the payload and content type; flipping any single ciphertext byte (after the record header) makes decrypt return an error.
+//verif:doc halfConn.encrypt then halfConn.decrypt with the real TLS 1.2 prefix-nonce and TLS 1.3 xor-nonce wrappers around the model AEAD, arbitrary sequence number, nonce material, record type and a payload of 0..3 (thorough 0..11) symbolic bytes: the receiver recovers exactly the payload and content type; flipping any single ciphertext byte (after the record header) makes decrypt return an error.
 func zzC25RecordRoundtripAndTamper() {
 	tls13 := verifBool("tls13")
 	fixed := verifBytes("fixed-nonce", 12)
@@ -277,7 +277,7 @@ func zzC25RecordRoundtripAndTamper() {
 	if verifBool("handshake-record") {
 		typ = recordTypeHandshake
 	}
-	pt := verifBytes("payload", verifChoice("len", 4))
+	pt := verifBytes("payload", verifChoice("len", zzTierN(4, 12)))
 	if tls13 && len(pt) == 0 {
 		verifAssume(typ == recordTypeApplicationData) // zero-length handshake records are illegal in TLS 1.3
 	}
